@@ -568,7 +568,10 @@ class SigmaDetections:
     ) -> Self:
         try:
             if isinstance(detections["condition"], list):
-                condition = detections["condition"]
+                # The rule gets its own list: the same list object may be shared by several rule
+                # documents (collection action "global"/"repeat", YAML aliases, a dict parsed twice)
+                # and conditions are rewritten in place later (filters, condition transformations).
+                condition = list(detections["condition"])
             else:
                 condition = [detections["condition"]]
         except KeyError:
